@@ -68,6 +68,16 @@ def pair_st(draw, tier):
         top, bottom = bottom, top
     if draw(st.sampled_from(range(6))) == 0:
         top, bottom = draw(G.flag_focus(top, bottom, established=False))
+    if draw(st.integers(0, 39)) == 21:
+        # two large expansions (2^8..2^9 prefixes each) related by a few low bits: above every size at which a cover
+        # test could switch strategy
+        side = draw(st.sampled_from(["src", "dst"]))
+        hi = ((1 << draw(st.sampled_from([8, 9]))) - 1) << draw(st.sampled_from([8, 9, 16]))
+        base = G.POOL_BASE & ~hi & R.ALL1
+        for rec in (top, bottom):
+            w = hi | ((1 << draw(st.integers(0, 4))) - 1)
+            rec[side] = {"k": "wild", "b": (base | draw(st.integers(0, 7))) & ~w & R.ALL1, "w": w}
+        bottom["action"] = top["action"]
     if draw(st.sampled_from(range(6))) == 0:
         # port sets equal or one port apart at an end of a run / of the port space, in every spelling
         top, bottom = draw(G.port_focus(top, bottom, platform))
